@@ -11,7 +11,12 @@ import (
 	"sort"
 	"time"
 
+	"io"
+	"net/http"
+	"strings"
+
 	"github.com/DataDog/datadog-traceroute/cache"
+	"github.com/DataDog/datadog-traceroute/publicip"
 	"github.com/DataDog/datadog-traceroute/result"
 	"github.com/DataDog/datadog-traceroute/reversedns"
 	"github.com/DataDog/datadog-traceroute/traceroute"
@@ -34,7 +39,7 @@ type AScn struct {
 	PublicIP string `json:"public_ip"`
 	RDNS     bool   `json:"rdns"`
 	NoDest   int    `json:"no_dest_mask"` // bit i (e2e calls): the run succeeds but has no destination hop (unanswered probe => 0)
-	ErrKind  int    `json:"err_kind"` // 0 plain error, 1 a net.Error whose Timeout() is true, 2 a wrapped context.DeadlineExceeded
+	ErrKind  int    `json:"err_kind"`     // 0 plain error, 1 a net.Error whose Timeout() is true, 2 a wrapped context.DeadlineExceeded
 	Stagger  bool   `json:"stagger"`      // the end-to-end probes are launched far apart (runs complete in between) instead of almost at once
 	Bound    int    `json:"bound"`
 }
@@ -342,13 +347,157 @@ func checkB(it *proto.RTItem, r *proto.RTResult) []proto.Issue {
 	return nil
 }
 
+// ---- (c) request sequences on ONE long-lived Traceroute with the real public-IP fetcher -----------------------
+//
+// The HTTP server keeps one Traceroute (and its fetcher) for the life of the process: a request must be answered whatever
+// the public-IP lookups of earlier requests did.
+
+var provKinds = []string{"ok", "http-404", "transport-error"}
+
+type CScn struct {
+	Seq   []int `json:"provider_per_request"` // provider behaviour during request i
+	Bound int   `json:"bound"`
+}
+
+type provRT struct{ mode *int }
+
+func (t provRT) RoundTrip(req *http.Request) (*http.Response, error) {
+	vsched.Yield("http")
+	vtime.Sleep(5 * time.Millisecond)
+	switch provKinds[*t.mode] {
+	case "ok":
+		return &http.Response{StatusCode: 200, Status: "200 OK", Body: io.NopCloser(strings.NewReader("192.0.2.44\n")), Header: http.Header{}, Request: req}, nil
+	case "http-404":
+		return &http.Response{StatusCode: 404, Status: "404 Not Found", Body: io.NopCloser(strings.NewReader("nope")), Header: http.Header{}, Request: req}, nil
+	}
+	return nil, errors.New("connection refused")
+}
+
+type cObs struct {
+	res []*result.Results
+	err []error
+}
+
+func runC(sc *CScn, prefix []int, sig []uint32) (*vsched.Exec, *cObs) {
+	o := &cObs{}
+	cache.Cache.Flush()
+	traceroute.VerifSetRunOnce(func(ctx context.Context, p traceroute.TracerouteParams, port int) (*result.TracerouteRun, error) {
+		vsched.Yield("runOnce")
+		vtime.Sleep(50 * time.Millisecond)
+		return &result.TracerouteRun{Destination: result.TracerouteDestination{IPAddress: net.ParseIP("203.0.113.9")},
+			Hops: []*result.TracerouteHop{{TTL: 1, IPAddress: net.IP{198, 51, 100, 1}, RTT: 1}, {TTL: 2, IPAddress: net.ParseIP("203.0.113.9"), RTT: 10.5, IsDest: true}}}, nil
+	})
+	defer traceroute.VerifSetRunOnce(nil)
+	mode := 0
+	tr := traceroute.VerifNewTraceroute(publicip.VerifNewFetcher(&http.Client{Transport: provRT{&mode}}))
+	x := vsched.Run(vsched.Config{Prefix: prefix, PrefixSig: sig, MaxVirtual: time.Hour}, nil, func() {
+		for _, m := range sc.Seq {
+			mode = m
+			res, err := tr.RunTraceroute(context.Background(), traceroute.TracerouteParams{Hostname: "203.0.113.9", Protocol: "udp", MinTTL: 1, MaxTTL: 5, Delay: 1,
+				Timeout: time.Millisecond, TracerouteQueries: 1, E2eQueries: 1, CollectSourcePublicIP: true})
+			o.res, o.err = append(o.res, res), append(o.err, err)
+		}
+	})
+	return x, o
+}
+
+func checkC(sc *CScn, x *vsched.Exec, o *cObs) (string, string) {
+	switch x.Outcome {
+	case vsched.Crash:
+		return "crash", x.Crash.Value + "\n" + x.Crash.Stack
+	case vsched.Deadlock:
+		return "request-never-returns", fmt.Sprintf("after %d completed requests: %v", len(o.res), x.Blocked)
+	case vsched.Horizon:
+		return "request-never-returns", fmt.Sprintf("after %d completed requests (horizon)", len(o.res))
+	}
+	known := false // a successful lookup is remembered (well within its two hours here)
+	for i := range sc.Seq {
+		if o.err[i] != nil {
+			return "public-ip-failure-failed-the-request", fmt.Sprintf("request %d (provider %s): %v", i+1, provKinds[sc.Seq[i]], o.err[i])
+		}
+		r := o.res[i]
+		if len(r.Traceroute.Runs) != 1 || len(r.E2eProbe.RTTs) != 1 {
+			return "counts", fmt.Sprintf("request %d: %d runs, %d samples", i+1, len(r.Traceroute.Runs), len(r.E2eProbe.RTTs))
+		}
+		if provKinds[sc.Seq[i]] == "ok" {
+			known = true
+		}
+		want := ""
+		if known {
+			want = "192.0.2.44"
+		}
+		if r.Source.PublicIP != want {
+			return "public-ip", fmt.Sprintf("request %d (providers so far %v): public ip %q, want %q", i+1, sc.Seq[:i+1], r.Source.PublicIP, want)
+		}
+	}
+	return "", ""
+}
+
+func genC(tier string) []CScn {
+	var out []CScn
+	maxLen := 3
+	if tier == "thorough" {
+		maxLen = 4
+	}
+	var rec func(cur []int)
+	rec = func(cur []int) {
+		if len(cur) > 0 {
+			out = append(out, CScn{Seq: append([]int{}, cur...), Bound: map[bool]int{false: 0, true: 1}[tier == "thorough"]})
+		}
+		if len(cur) == maxLen {
+			return
+		}
+		for k := range provKinds {
+			rec(append(cur, k))
+		}
+	}
+	rec(nil)
+	return out
+}
+
+var cCache = map[string][]CScn{}
+
+func cItems(tier string) []CScn {
+	if c, ok := cCache[tier]; ok {
+		return c
+	}
+	cCache[tier] = genC(tier)
+	return cCache[tier]
+}
+
 var FB = &proto.RTFamily{ID: "C15", Gen: genB, Bound: func(string) int { return 1 }, SecondEvery: 2}
 
 func init() {
 	FB.Check = checkB
-	count := func(tier string) int { return countA(tier) + FB.Count(tier) }
+	count := func(tier string) int { return countA(tier) + FB.Count(tier) + len(cItems(tier)) }
 	run := func(tier string, idx int, r *core.ScnResult) {
 		na := countA(tier)
+		if idx >= na+FB.Count(tier) {
+			sc := &cItems(tier)[idx-na-FB.Count(tier)]
+			r.Nontrivial = len(sc.Seq) > 1
+			var o *cObs
+			e := &vsched.Explorer{Bound: sc.Bound}
+			e.RunOne = func(prefix []int, sig []uint32) *vsched.Exec {
+				var x *vsched.Exec
+				x, o = runC(sc, prefix, sig)
+				return x
+			}
+			e.Check = func(x *vsched.Exec, cost int) bool {
+				if x.Outcome == vsched.Diverged {
+					r.Infra = "replay diverged"
+					return false
+				}
+				if k, d := checkC(sc, x, o); k != "" {
+					r.Fail(core.Failure{Key: "C15 request-sequence/real-fetcher/" + k, What: d, Scenario: core.JSON(map[string]any{"sequence": sc}), Choices: x.Choices(), Bound: cost})
+					return false
+				}
+				r.Outcome(core.Hash("seq", sc.Seq))
+				return true
+			}
+			e.Explore()
+			r.Stats = e.Stats
+			return
+		}
 		if idx >= na {
 			FB.Run(tier, idx-na, r)
 			return
@@ -384,8 +533,18 @@ func init() {
 	replay := func(scn json.RawMessage, choices []int) (string, bool) {
 		var w struct {
 			S *AScn `json:"scripted"`
+			C *CScn `json:"sequence"`
 		}
 		json.Unmarshal(scn, &w)
+		if w.C != nil {
+			x, o := runC(w.C, choices, nil)
+			k, d := checkC(w.C, x, o)
+			s := fmt.Sprintf("request sequence %s choices %v outcome %s\n", scn, choices, x.Outcome)
+			if k != "" {
+				return s + "ORACLE FAILED: " + k + ": " + d + "\n", false
+			}
+			return s + "oracle: ok\n", true
+		}
 		if w.S != nil {
 			x, o := runA(w.S, choices, nil)
 			k, d := checkA(w.S, x, o)
@@ -399,7 +558,8 @@ func init() {
 	}
 	core.Register(&core.Property{ID: "C15", Level: "model_checking",
 		Rule: "(a) the per-run function is replaced (through the seam the repository's own tests use) by a scripted one that blocks on a virtual timer and then succeeds or fails: query counts 0..Q x end-to-end probes 0..E x every failing subset x every completion order (all (q+e)! permutations) x unanswered end-to-end probes x public IP {off, ok, error, slower than every run} x reverse DNS on/off, each explored over all schedules within the preemption bound of the real aggregator; " +
-			"(b) real protocol runs (2 runs + 2 probes) over the simulated wire with a send / filter fault at every position; oracle: success iff no failure, exact run and RTT-sample counts (0 for unanswered), no duplicates, every injected failure found by errors.Is, public-IP failure never fails the call; distinct = distinct (q, e, error?, public-ip mode)",
+			"(b) real protocol runs (2 runs + 2 probes) over the simulated wire with a send / filter fault at every position, and requested counts incl. 0 through both entry points; " +
+			"(c) every sequence of <=3 (thorough 4) requests on ONE Traceroute with the real public-IP fetcher whose providers answer / refuse / 404 per request: every request returns, succeeds with exact counts, and carries the public IP iff a lookup has succeeded so far; oracle: success iff no failure, exact run and RTT-sample counts (0 for unanswered), no duplicates, every injected failure found by errors.Is, public-IP failure never fails the call; distinct = distinct (q, e, error?, public-ip mode)",
 		Count: count, Run: run, Replay: replay, Exhaustive: true, NeedsNetns: true,
 		Assumptions: []string{"a public-IP fetcher that never returns is C08's subject, not C15's"}})
 }
